@@ -31,6 +31,28 @@ def _mk_ops(ctx, st, w, specs):
     return out
 
 
+def _op_lids(st, op):
+    """local ids of the streams an operation opened (by OPEN destination for shell-like operations, by the device path in the
+    sync requests otherwise)"""
+    out = set()
+    want_dest = None
+    if hasattr(op, 'cmd') and hasattr(op, 'prefix'):
+        want_dest = op.prefix + op.cmd.encode()
+    elif getattr(op, 'dest', None) is not None and isinstance(getattr(op, 'dest'), bytes):
+        want_dest = op.dest
+    path = getattr(op, 'path', None) or getattr(op, 'device_path', None)
+    for s in st.dev.all_streams:
+        d = getattr(s, 'dest_name', b'')
+        if want_dest is not None and d == want_dest:
+            out.add(s.lid)
+        elif path is not None and d == b'sync:' and s.service is not None:
+            for rid, body in getattr(s.service, 'records', []):
+                b = core.norm(body) if not isinstance(body, (int, core.SymInt)) else b''
+                if isinstance(b, bytes) and b.split(b',')[0] == path.encode():
+                    out.add(s.lid)
+    return out
+
+
 def _judge(ctx, mods, w, st, results, deadlock, extra_events=(), judge=True, ignore_k1=False):
     exc = mods.exceptions
     if not judge:
@@ -54,7 +76,8 @@ def _judge(ctx, mods, w, st, results, deadlock, extra_events=(), judge=True, ign
             ctx.check(not o.ok, tag + 'an open that the device never answers fails', detail=repr(o))
             continue
         if not o.ok:
-            k1 = [e for e in ctx.events if e.startswith('K1:')]
+            lids = _op_lids(st, op)
+            k1 = [e for e in ctx.events if e.startswith('K1:') and any(('local %s)' % l) in e for l in lids)]
             if k1 and isinstance(o.exc, (exc.TcpTimeoutException, exc.AdbTimeoutError)):
                 if ignore_k1:
                     continue      # the K1 timeout is reported once, under C06
